@@ -438,3 +438,66 @@ func freeVarBinding(mc *ssa.MakeClosure, fv *ssa.FreeVar) ssa.Value {
 	}
 	return nil
 }
+
+// deferredBody returns the function whose body runs for a defer: the closure
+// itself, or the statically known deferred callee.
+func deferredBody(d *ssa.Defer) *ssa.Function {
+	if mc, ok := d.Call.Value.(*ssa.MakeClosure); ok {
+		return mc.Fn.(*ssa.Function)
+	}
+	if cal := d.Call.StaticCallee(); cal != nil && cal.Blocks != nil {
+		return cal
+	}
+	return nil
+}
+
+// findInCallees looks for an instruction satisfying pred in fn itself or in
+// module-local static callees (depth levels deep); it returns the instruction
+// of fn that is, or leads to, the match.
+func findInCallees(fn *ssa.Function, depth int, pred func(ssa.Instruction) bool) ssa.Instruction {
+	var out ssa.Instruction
+	seen := map[*ssa.Function]bool{}
+	var has func(f *ssa.Function, d int) bool
+	has = func(f *ssa.Function, d int) bool {
+		if seen[f] {
+			return false
+		}
+		seen[f] = true
+		found := false
+		eachInstr(f, func(in ssa.Instruction) {
+			if found {
+				return
+			}
+			if pred(in) {
+				found = true
+				return
+			}
+			if d > 0 {
+				if ci, ok := in.(*ssa.Call); ok {
+					if cal := ci.Call.StaticCallee(); cal != nil && cal.Blocks != nil && strings.HasPrefix(fnPkgPath(cal), modPath) && has(cal, d-1) {
+						found = true
+					}
+				}
+			}
+		})
+		return found
+	}
+	eachInstr(fn, func(in ssa.Instruction) {
+		if out != nil {
+			return
+		}
+		if pred(in) {
+			out = in
+			return
+		}
+		if ci, ok := in.(*ssa.Call); ok && depth > 0 {
+			if cal := ci.Call.StaticCallee(); cal != nil && cal.Blocks != nil && strings.HasPrefix(fnPkgPath(cal), modPath) {
+				seen = map[*ssa.Function]bool{}
+				if has(cal, depth-1) {
+					out = in
+				}
+			}
+		}
+	})
+	return out
+}
